@@ -27,6 +27,7 @@ next to it; the safety rules that make the intended tree the ONLY reading are:
       only for paragraph continuation lines (which start with a word, R1).
 """
 import html as _html
+import re
 
 WORDS = ['alpha', 'beta', 'gamma', 'delta', 'epsilon', 'lorem', 'ipsum', 'dolor', 'sit', 'amet', 'über', 'naïve', 'Straße', '中文',
          'x1', 'a2b', 'Zeta', 'ETA', 'theta', 'iota', 'kappa', 'lambda', 'mu', 'nu', 'xi', 'omicron', 'pi', 'rho', 'sigma', 'tau']
@@ -37,6 +38,10 @@ DESTS = ['/url', '/path/to/page', 'http://example.com/', 'http://example.com/a?b
          'https://example.org/index.html']
 ANGLE_DESTS = ['my url', 'a(b', '/x y/z']
 TITLES = ['title', 'a title', "it's", 'say "hi"', 'one (two)', 'Ünï']
+# semantic values (what the attribute must contain); spell_tail() chooses a spelling with backslash escapes / references
+RICH_TITLES = ['it`s', 'a*b', 'x_y z_', '5 > 3 & 2', '<b>', '[x]', 'back\\slash', 'a\\*b', '&amp;', '**', '``x', '!#$%', '"both\' (kinds)"', 'tail\\',
+               'a|b', '\\&amp;', 'q: "x"']
+RICH_DESTS = ['/a`b', '/a*b*', '/x\\y', '/a"b', "/a'b", '/&amp;', '/a(b(c))', '/a)b', '/[x]', '/a<b>', '/a\\*b', '/_x_', '/a(b', '/~', '/&copy']
 AUTOLINKS = ['http://example.com/path', 'https://a.b/c?d=e&f=g', 'ftp://host/file.txt', 'mailto:someone@example.com']
 EMAILS = ['user@example.com', 'first.last@sub.example.org']
 ESCAPABLE = list('!"#$%&\'()*+,-./:;<=>?@[\\]^_`{}~')     # every ASCII punctuation character except '|' (table cells)
@@ -54,10 +59,10 @@ HTML7 = [['<x-note>', 'text *here*'], ['<my-tag attr="v">'], ['</x-note>'], ['<a
 
 PROFILES = {
     # switches: see generate()
-    'full': {},
-    'roundtrip': dict(entities=False, indent4_cont=False, table_escaped_pipe=False, empty_items=False),
-    'normalform': dict(entities=False, indent4_cont=False, canonical=True, table_escaped_pipe=False, empty_items=False, blank_start_items=False),
-    'prose': dict(entities=False, indent4_cont=False, prose=True, table_escaped_pipe=False, empty_items=False),
+    'full': dict(rich_links=True),
+    'roundtrip': dict(entities=False, indent4_cont=False, empty_items=False),
+    'normalform': dict(entities=False, indent4_cont=False, canonical=True, empty_items=False, blank_start_items=False),
+    'prose': dict(entities=False, indent4_cont=False, prose=True, empty_items=False),
     'outline': dict(outline=True),
 }
 
@@ -71,11 +76,13 @@ class Opt:
         self.outline = False          # C19: plain-word headings forming an outline
         self.setext_in_quote = False  # known finding C04-setext-in-quote: off by default
         self.lazy_after_indented = False   # known finding C03-lazy-after-indented-in-quote
-        self.setext_space_hard_break = False   # known finding C03-setext-trailing-space-hard-break
+        self.setext_space_hard_break = True    # (was known finding C03-setext-trailing-space-hard-break, repaired in 6a8c723)
         self.tilde_code_in_strike = False      # known finding C03-strike-vs-code-tilde
         self.empty_last_item = False           # known finding C03-empty-last-item-swallows-blank
-        self.table_escaped_pipe = True         # off for the round-trip profiles (known finding C09-escaped-pipe-in-table-cell)
+        self.table_escaped_pipe = True         # (was off for the round-trip profiles: C09-escaped-pipe-in-table-cell, repaired in f65540f)
         self.table_first_in_item = False   # known finding C03-table-starts-later-list-item
+        self.para_after_closed_container = False   # known finding C03-lazy-after-nonparagraph: off by default
+        self.rich_links = False       # destinations / titles with escapes, references and Markdown-significant characters (profile "full")
         self.lazy = True
         self.omit_blank = True
         self.indent = True
@@ -197,7 +204,66 @@ def gen_link(rng, opt, depth, image, in_strike=False, breaks=False):
     tq = rng.choice('"\'(')
     if title and ((tq == '"' and '"' in title) or (tq == "'" and "'" in title) or (tq == '(' and ('(' in title or ')' in title))):
         tq = next(q for q in '"\'(' if not ((q == '"' and '"' in title) or (q == "'" and "'" in title) or (q == '(' and '(' in title)))
+    if opt.rich_links and rng.random() < 0.3:
+        if rng.random() < 0.6:
+            title = rng.choice(RICH_TITLES)
+        if rng.random() < 0.6:
+            dest, angle = rng.choice(RICH_DESTS), rng.random() < 0.3
+        tq = rng.choice('"\'(')
+        return ('image' if image else 'link', text, dest, title, tq, angle, spell_tail(rng, dest, title, tq, angle, opt.entities))
     return ('image' if image else 'link', text, dest, title, tq, angle)
+
+
+_PUNCT = set('!"#$%&\'()*+,-./:;<=>?@[\\]^_`{|}~')
+_ENT_START = re.compile(r'&(?:#[0-9]{1,7}|#[xX][0-9a-fA-F]{1,6}|[A-Za-z0-9]{1,32});')
+_ENT_OF = {'&': '&amp;', '"': '&quot;', '<': '&lt;', '>': '&gt;', '#': '&#35;', '*': '&#42;', '`': '&#96;', '\\': '&#92;', '(': '&#40;', ')': '&#x29;'}
+
+
+def spell_value(rng, value, must_escape, entities, p=0.2, never=''):
+    """6.1 / 6.2: a spelling of ``value`` in which every character of ``must_escape`` is backslash-escaped or written as
+    a character reference, a backslash that would otherwise escape its neighbour is doubled, an ampersand that would
+    otherwise start a reference is escaped, and other punctuation is escaped at random."""
+    out = []
+    for i, c in enumerate(value):
+        nxt = value[i + 1] if i + 1 < len(value) else ''
+        forced = c in must_escape or (c == '\\' and (nxt in _PUNCT or nxt == '' or nxt in must_escape)) or (c == '&' and _ENT_START.match(value, i))
+        if forced or (c in _PUNCT and c not in never and rng.random() < p):
+            if entities and c in _ENT_OF and rng.random() < 0.3:
+                out.append(_ENT_OF[c])
+            else:
+                out.append('\\' + c)
+        else:
+            out.append(c)
+    return ''.join(out)
+
+
+def balanced(value):
+    d = 0
+    for c in value:
+        if c == '(':
+            d += 1
+        elif c == ')':
+            d -= 1
+            if d < 0:
+                return False
+    return d == 0
+
+
+def spell_tail(rng, dest, title, tq, angle, entities):
+    """(destination spelling, title spelling) for an inline link or a definition (6.3)."""
+    if angle:
+        d = spell_value(rng, dest, '<>', entities)
+    else:
+        # parentheses: all of them escaped, or (when they balance) none - escaping some changes the balance of the others
+        if balanced(dest) and rng.random() < 0.7:
+            d = spell_value(rng, dest, '', entities, never='()')
+        else:
+            d = spell_value(rng, dest, '()', entities)
+        if d.startswith('<'):
+            d = '\\' + d
+    close = {'"': '"', "'": "'", '(': '()'}[tq]
+    t = spell_value(rng, title, close, entities)
+    return d, t
 
 
 def gen_inlines(rng, opt, max_lines=3, allow_breaks=True, simple=False, min_atoms=1):
@@ -266,10 +332,14 @@ def atom_md(nd):
         return '~~' + seq_md(nd[1]) + '~~'
     if k in ('link', 'image'):
         text, dest, title, tq, angle = nd[1:6]
+        if len(nd) > 6:
+            dest, title_md = nd[6]
+        else:
+            title_md = title
         s = ('!' if k == 'image' else '') + '[' + seq_md(text) + ']('
         s += ('<' + dest + '>') if angle else dest
         if title:
-            s += ' ' + tq + title + (')' if tq == '(' else tq)
+            s += ' ' + tq + title_md + (')' if tq == '(' else tq)
         return s + ')'
     if k == 'reflink':
         # ('reflink', text_nodes, form, label_spelling, dest, title, image)
@@ -502,7 +572,14 @@ class Gen:
             return [('text', word(rng))]
         header = [cell() for _ in range(ncol)]
         rows = [[cell() for _ in range(ncol)] for _ in range(rng.randint(0, 3))]
-        return Node('table', aligns=aligns, header=header, rows=rows, outer=rng.random() < 0.7 or ncol == 1)
+        outer = rng.random() < 0.7 or ncol == 1
+        if outer and rng.random() < 0.3:
+            # GFM tables: a cell may be empty ('| a |  | c |'; only spelled with the outer pipes, which delimit a first / last empty cell)
+            for r in [header] + rows:
+                for i in range(ncol):
+                    if rng.random() < 0.25:
+                        r[i] = []
+        return Node('table', aligns=aligns, header=header, rows=rows, outer=outer)
 
     def html(self):
         rng = self.rng
@@ -521,8 +598,16 @@ class Gen:
         label = 'ref%d %s' % (self.label_counter, word(rng)) if rng.random() < 0.5 else 'ref%d' % self.label_counter
         title = rng.choice(TITLES) if rng.random() < 0.4 else ''
         angle = rng.random() < 0.15
-        return Node('refdef', label=label, dest=rng.choice(ANGLE_DESTS) if angle else rng.choice(DESTS), angle=angle, title=title,
-                    tq=rng.choice('"\'('), title_nl=rng.random() < 0.15 and not self.opt.canonical)
+        nd = Node('refdef', label=label, dest=rng.choice(ANGLE_DESTS) if angle else rng.choice(DESTS), angle=angle, title=title,
+                  tq=rng.choice('"\'('), title_nl=rng.random() < 0.15 and not self.opt.canonical)
+        if self.opt.rich_links and rng.random() < 0.3:
+            if rng.random() < 0.6:
+                nd.title = rng.choice(RICH_TITLES)
+            if rng.random() < 0.6:
+                nd.dest, nd.angle = rng.choice(RICH_DESTS), rng.random() < 0.3
+            nd.dest_md, nd.title_md = spell_tail(rng, nd.dest, nd.title, nd.tq, nd.angle, self.opt.entities)
+            nd.spelled = True
+        return nd
 
     def quote(self, depth, in_quote):
         return Node('quote', blocks=self.blocks(depth + 1, in_quote=True), space=self.rng.random() < 0.8,
@@ -576,9 +661,36 @@ class Gen:
 # block level: emission (Markdown spelling + line tracking)
 # =====================================================================================
 
-def can_follow(prev, nxt):
+def deep_last(nd):
+    """The last leaf block inside a container (None below an empty last item)."""
+    while nd is not None and nd.kind in ('quote', 'list'):
+        if nd.kind == 'quote':
+            nd = nd.blocks[-1] if nd.blocks else None
+        else:
+            it = nd.items[-1] if nd.items else None
+            nd = it.blocks[-1] if it is not None and it.blocks else None
+    return nd
+
+
+def can_follow(prev, nxt, opt=None):
     """May ``nxt`` directly follow ``prev`` without a blank line and still be the intended tree (R9)?"""
     pk, nk = prev.kind, nxt.kind
+    if pk in ('quote', 'list'):
+        # 5.1 / 5.2: a line without the container's prefix / indentation ends the container unless it is a lazy
+        # continuation of a paragraph that is still open there
+        leaf = deep_last(prev)
+        if leaf is None or nk in ('quote', 'list', 'icode', 'refdef'):
+            return False
+        if leaf.kind == 'para':
+            return can_follow(leaf, nxt, opt)             # what can interrupt that paragraph also ends its lazy continuation
+        if leaf.kind in ('atx', 'hr') or (leaf.kind == 'fence' and leaf.closed):
+            if nk in ('para', 'setext', 'table'):
+                # nothing is open that the line could continue lazily: it starts a new paragraph after the container
+                return bool(opt is not None and opt.para_after_closed_container)     # known finding C03-lazy-after-nonparagraph
+            if nk == 'hr':
+                return nxt.spell[0] in '*_'
+            return nk in ('atx', 'fence') or (nk == 'html' and nxt.cond != 7)
+        return False
     if pk == 'para':
         if nk == 'atx' or nk == 'quote':
             return True                                   # 4.2 / 5.1: can interrupt a paragraph
@@ -672,7 +784,7 @@ class Emitter:
             self.after_list = prev is not None and prev.kind == 'list'
             lines = self.block(nd, ctx)
             if prev is not None:
-                direct = can_follow(prev, nd)
+                direct = can_follow(prev, nd, opt)
                 if tight:
                     if not direct:
                         raise AssertionError('tight item sequence %s -> %s needs a blank line' % (prev.kind, nd.kind))
@@ -781,18 +893,24 @@ class Emitter:
         def row(cells):
             s = ' | '.join(cells)
             return '| ' + s + ' |' if nd.outer else s
-        out = [Line(row([inl_md(c)[0] for c in nd.header]), kind='table')]
+        out = [Line(row([inl_md(c)[0] if c else '' for c in nd.header]), kind='table')]
         delim = []
         for a in nd.aligns:
             delim.append({None: '---', 'left': ':---', 'center': ':---:', 'right': '---:'}[a])
         out.append(Line(row(delim), kind='table-delim'))
         for r in nd.rows:
-            out.append(Line(row([inl_md(c)[0] for c in r]), kind='table-row'))
+            cells = [inl_md(c)[0] if c else '' for c in r]
+            if nd.outer and len(cells) > 1 and cells[-1] == '' and self.rng.random() < 0.5:
+                # "if a number of cells fewer than the number of cells in the header row, empty cells are inserted"
+                while len(cells) > 1 and cells[-1] == '':
+                    cells.pop()
+                self.stat('table-short-row')
+            out.append(Line(row(cells), kind='table-row'))
         return out
 
     def e_table_canonical(self, nd):
         """The Markdown renderer's own table layout: cells padded to the column width (minimum 3), ':' markers."""
-        rows = [[inl_md(c)[0] for c in nd.header]] + [[inl_md(c)[0] for c in r] for r in nd.rows]
+        rows = [[inl_md(c)[0] if c else '' for c in nd.header]] + [[inl_md(c)[0] if c else '' for c in r] for r in nd.rows]
         widths = [max(3, max(len(r[i]) for r in rows)) for i in range(len(nd.aligns))]
 
         def fmt(cells):
@@ -820,12 +938,15 @@ class Emitter:
         return [Line(l, kind='html') for l in nd.lines]
 
     def e_refdef(self, nd, ctx):
-        dest = '<%s>' % nd.dest if nd.angle else nd.dest
+        dest = getattr(nd, 'dest_md', nd.dest)
+        dest = '<%s>' % dest if nd.angle else dest
         s = '[%s]: %s' % (nd.label, dest)
         out = [Line(self.ind(ctx) + s, kind='refdef')]
         if nd.title:
             tq = nd.tq
-            if (tq == '"' and '"' in nd.title) or (tq == "'" and "'" in nd.title) or (tq == '(' and ('(' in nd.title or ')' in nd.title)):
+            if getattr(nd, 'spelled', False):
+                pass                     # spell_tail() escaped whatever the chosen quotes require
+            elif (tq == '"' and '"' in nd.title) or (tq == "'" and "'" in nd.title) or (tq == '(' and ('(' in nd.title or ')' in nd.title)):
                 tq = next(q for q in '"\'(' if not ((q == '"' and '"' in nd.title) or (q == "'" and "'" in nd.title) or (q == '(' and '(' in nd.title)))
             t = tq + getattr(nd, 'title_md', nd.title) + (')' if tq == '(' else tq)
             if nd.title_nl:
@@ -1068,11 +1189,12 @@ def vary_label(rng, label):
     return (' ' * rng.choice((1, 1, 2))).join(words)
 
 
-def add_references(rng, blocks):
+def add_references(rng, blocks, headings=True):
     """Sprinkle reference links / images (full, collapsed, shortcut) that resolve to the definitions of the tree -
     wherever those sit (6.3: position-independent) - and a few unresolved ones that must stay literal text."""
     defs = [nd for nd in walk_nodes(blocks) if nd.kind == 'refdef']
-    paras = [nd for nd in walk_nodes(blocks) if nd.kind == 'para']
+    # paragraphs and (4.2 / 4.3) headings: a heading's inline content is parsed like a paragraph's
+    paras = [nd for nd in walk_nodes(blocks) if nd.kind == 'para' or (headings and nd.kind in ('atx', 'setext') and nd.inl)]
     first = {}
     for d in defs:
         first.setdefault(d.label.casefold(), d)
@@ -1108,7 +1230,7 @@ def generate(rng, profile='full', max_blocks=None, **overrides):
         try:
             blocks = g.blocks(0)
             if opt.refs:
-                add_references(rng, blocks)
+                add_references(rng, blocks, headings=not opt.outline)
             doc = emit(rng, opt, g, blocks, profile)
             doc.redrawn = attempt
             return doc
